@@ -273,6 +273,19 @@ def _build_invalid():
         return plan.eval_feat_exp((rho, sigma, tau), i=-1)
 
     T["NLDFPlan"].append(("exponent above alpha_max", big_expnt))
+    # the same guard for every plan class x semilocal level x spin count x feature index (separate code paths per level)
+    for cls, level, nspin, i in itertools.product((P.NLDFGaussianPlan, P.NLDFSplinePlan), ("MGGA", "GGA"), (1, 2), (-1, 0, 1)):
+        stl = F.feature_settings("VIJ", slmode="npa" if level == "MGGA" else "np").nldf_settings
+
+        def big(cls=cls, stl=stl, nspin=nspin, i=i, level=level):
+            pl = cls(stl, nspin, 0.1, 2.0, 6)
+            am = float(pl.alphas.max())
+            rho = np.array([(am * 40 / 2.0) ** 1.5, 0.3])
+            sigma = np.zeros(2)
+            rt = (rho, sigma, 2.871 * rho ** (5.0 / 3)) if level == "MGGA" else (rho, sigma)
+            return pl.eval_feat_exp(rt, i=i)
+
+        T["NLDFPlan"].append(("exponent above alpha_max %s %s nspin=%d i=%d" % (cls.__name__, level, nspin, i), big))
     T["NLDFPlan"].append(("feature index out of range", lambda: plan.eval_feat_exp((np.ones(2), np.zeros(2), np.ones(2)), i=7)))
     T["NLDFPlan"].append(("wrong number of interpolating points", lambda: plan.get_transformed_interpolation_terms(np.zeros((3, 5)), i=0)))
     # normaliser / model size mismatch, shapes
